@@ -93,7 +93,7 @@ Lemma opq_tab_file : forall st id x i fl,
   opq_tab st id x (set_file fl i) = rmap (snd_file fl) (opq_tab st id x i).
 Proof.
   intros st id x i fl. unfold opq_tab. destruct (nth_error st id) as [s|]; [|reflexivity].
-  destruct s; cbn [run_stage]; apply apply_part_file; intros; reflexivity.
+  destruct s; cbn [run_stage]; try reflexivity; apply apply_part_file; intros; reflexivity.
 Qed.
 
 Lemma qopq_tab_file : forall qs id x i fl,
